@@ -83,7 +83,7 @@ impl Prop for C13 {
         }
     }
     fn required_probes(&self, _tier: Tier) -> Vec<&'static str> {
-        vec!["txs_ge_100_in_block", "outputs_ge_500_in_tx", "threads_64", "stale_tmp_longer_than_output", "same_name_rerun", "index_files_rewritten", "index_has_non_active_records", "same_length_stale_result", "more_workers_than_txs_in_a_block_of_128_plus", "empty_range_run_with_stale_tmp"]
+        vec!["txs_ge_100_in_block", "outputs_ge_500_in_tx", "threads_64", "stale_tmp_longer_than_output", "same_name_rerun", "index_files_rewritten", "index_has_non_active_records", "same_length_stale_result", "more_workers_than_txs_in_a_block_of_128_plus", "empty_range_run_with_stale_tmp", "tx_with_1000_plus_inputs", "lock_and_pid_files_in_dump_folder"]
     }
     fn explore(&self, item: u64, rng: &mut Rng, _tier: Tier, h: &mut Harness) -> Result<(), String> {
         let coin = COINS[(item % 8) as usize];
@@ -118,9 +118,29 @@ impl Prop for C13 {
                 };
                 scn.chain.push(wide_block(coin, i as u64, n_tx, max_out, rng));
             }
+            // a "sweep": one transaction with a thousand and more inputs (the tx_in rows of one transaction)
+            if rng.chance(1, 4) {
+                let bi = rng.usize(0, nb - 1);
+                if scn.chain[bi].txs.len() >= 2 {
+                    let ti = rng.usize(1, scn.chain[bi].txs.len() - 1);
+                    let n_in = *rng.pick(&[1023usize, 1024, 1500, 3000]);
+                    let tx = &mut scn.chain[bi].txs[ti];
+                    tx.inputs = (0..n_in)
+                        .map(|j| InDesc {
+                            prev_txid: Bytes(rng.bytes(32)),
+                            prev_index: j as u32,
+                            script_sig: Bytes(vec![(j % 251) as u8; 1 + j % 5]),
+                            sequence: j as u32,
+                            witness: vec![],
+                        })
+                        .collect();
+                    h.stats.probe("tx_with_1000_plus_inputs");
+                }
+            }
             scn.layouts = vec![single_file_layout(nb)];
             scn.index = index_opts(rng);
             let cb = CBS[(item / 2 % 5) as usize];
+            let verbose_schedules = rng.chance(1, 4);
             let mut combos: Vec<(usize, &str)> = vec![(1, "none")];
             for t in THREADS.iter().skip(1) {
                 combos.push((*t, *rng.pick(&MODES)));
@@ -142,6 +162,10 @@ impl Prop for C13 {
                 }
                 if rng.chance(1, 4) {
                     r.plan.writer_cap = Some(*rng.pick(&[64usize, 4096]));
+                }
+                // diagnostics are evaluated on the workers too
+                if verbose_schedules {
+                    r.verbosity = 1;
                 }
                 scn.runs.push(r);
             }
@@ -188,6 +212,15 @@ impl Prop for C13 {
             name: "notes.txt".into(),
             bytes: Bytes(b"unrelated".to_vec()),
         });
+        // leftovers of whatever else works in that folder: lock and pid files naming a live process (pid 1)
+        if rng.coin() {
+            for name in [".lock", ".pid", "dump.pid", ".csvdump.lock", ".unspentcsvdump.lock", ".balances.lock", "LOCK", "csvdump.lock"] {
+                if rng.coin() {
+                    scn.dump_pre.push(PreFile { name: name.into(), bytes: Bytes(b"1\n".to_vec()) });
+                }
+            }
+            h.stats.probe("lock_and_pid_files_in_dump_folder");
+        }
         scn.dump_pre.push(PreFile {
             name: "blocks-7-9.csv.bak".into(),
             bytes: Bytes(b"unrelated backup".to_vec()),
